@@ -295,33 +295,16 @@ func ruleFreelistConsume(r *Report) {
 			"the file removed is the hand-over file returned by ToGC", "os.Remove in processFreeList does not remove the ToGC hand-over file")
 	}
 	// removal only after the loop ended with EOF
-	evs := errValues(next)
-	eofEdges := condEdges(fn, func(cond ssa.Value) (bool, bool) {
-		bo, ok := cond.(*ssa.BinOp)
-		if !ok || (bo.Op != token.EQL && bo.Op != token.NEQ) {
-			return false, false
-		}
-		isEOF := func(v ssa.Value) bool {
-			u, ok := v.(*ssa.UnOp)
-			if !ok || u.Op != token.MUL {
-				return false
-			}
-			g, ok := u.X.(*ssa.Global)
-			return ok && g.Name() == "EOF" && g.Pkg.Pkg.Path() == "io"
-		}
-		if !(evs[bo.X] && isEOF(bo.Y)) && !(evs[bo.Y] && isEOF(bo.X)) {
-			return false, false
-		}
-		if bo.Op == token.EQL {
-			return true, false
-		}
-		return false, true
-	})
+	eofEdges := eofEdgesOf(fn, next)
 	for _, rm := range removes {
 		bad := false
+		eofSet := mkEdgeSet(eofEdges)
 		for _, fe := range failureEdges(next) {
 			fe := fe
-			reach, path := Search{Fn: fn, FromEdge: &fe, Target: isInstr(rm), AvoidEdges: mkEdgeSet(eofEdges)}.Run()
+			if eofSet[fe] {
+				continue // errors.Is(err, io.EOF): the "failure" edge is the end-of-file edge itself
+			}
+			reach, path := Search{Fn: fn, FromEdge: &fe, Target: isInstr(rm), AvoidEdges: eofSet}.Run()
 			if reach {
 				bad = true
 				r.BadPath(rule, "processFreeList/remove-only-after-EOF", rm.Pos(), "the hand-over file can be removed after the read loop stopped on an error other than EOF: the unread entries would never be presented to GC", path)
